@@ -16,7 +16,7 @@ def main(tier):
         rule='every dependency graph on n variables (quick n <= 2 complete; thorough n <= 3 with at most one read edge per model for n = 3) x every placement over two connected components x every '
              'marking of <= 2 variables as external (home variable of each class incl. states, constants, computed constants, algebraic and NLA unknowns; a non-primary twin; both twins; the VOI; '
              'a variable outside the model) x every declared dependency of <= 1 other variable (each legal one, itself, a foreign variable), plus every under-constrained variant whose dropped '
-             'equation defines the marked variable; plus (n = 3) every single marking with TWO declared dependencies living in different components, also with names shared across components; (quick: no self-reading states / guessed unknowns in the n <= 2 part); plus family sdep: every graph on 2-3 variables (<= 2 read edges for n = 3) with a state x every placement (quick: one component or alternating) x every non-state variable that something reads, marked external with a declared dependency on each state or state-dependent variable whose value does not depend on it; every run has a SECOND evaluation point: the states are moved as an integrator would, the callback of an external variable with a state-dependent declared dependency answers differently, ONLY computeVariables is called, and every non-external value must match the equations at the new states; judged = markings analysed and compared with the unmarked analysis and the construction, and whose generated C and Python ran with a recording callback',
+             'equation defines the marked variable; plus (n = 3) every single marking with TWO declared dependencies living in different components, also with names shared across components; (quick: no self-reading states / guessed unknowns in the n <= 2 part); plus family sdep: every graph on 2-3 variables (<= 2 read edges between variables for n = 3, reads of the VOI not counted) with a state x every placement (quick: one component or alternating) x every non-state variable that something reads, marked external with a declared dependency on each state or state-dependent variable whose value does not depend on it (declared through the home variable and through each non-home member of its class, components in either order; with unrelated padding equations listed last / first; a marked variable that nothing reads only in one padded variant); every run has a SECOND evaluation point: the states are moved as an integrator would, the callback of an external variable with a state-dependent declared dependency answers differently, ONLY computeVariables is called, and every non-external value must match the equations at the new states; judged = markings analysed and compared with the unmarked analysis and the construction, and whose generated C and Python ran with a recording callback',
         assumptions=[
             'the callback returns a fixed value per external variable; dependency order is judged at the LAST invocation for an external variable (initialiseVariables may call the callback before computed constants exist)',
             'a marking whose class the analyser itself treats as primary (its AnalyserVariable::variable() is the marked twin) needs no message',
